@@ -44,11 +44,13 @@ value = st.one_of(st.integers(0, 100), dyadic(0, 100))
 def case(draw):
     svc = draw(st.sampled_from(SERVICES))
     m = draw(st.one_of(st.integers(0, 8), st.integers(0, 60)))
+    dead = draw(st.booleans())  # the pool may rest in the dead band (no condition holds) for some periods
     actions = []
     for _ in range(draw(st.integers(0, 12))):
         a = {"k": draw(st.integers(0, m + 1)), "off": draw(st.sampled_from(OFFSETS))}
         if svc in ("linear", "relative", "stepwise", "switch"):
-            a["what"] = {"mode": draw(st.sampled_from(["down", "up"])), "supply": draw(value)}
+            modes = ["down", "up"] + (["dead", "dead"] if svc in ("linear", "relative") and dead else [])
+            a["what"] = {"mode": draw(st.sampled_from(modes)), "supply": draw(value)}
         elif svc == "buffer":
             a["what"] = draw(st.one_of(st.fixed_dictionaries({"write": value}), st.fixed_dictionaries({"write": value}),
                                        st.fixed_dictionaries({"poolset": value})))
@@ -57,7 +59,8 @@ def case(draw):
         actions.append(a)
     return {"service": svc, "interval": draw(interval_st), "periods": m, "frac": draw(st.sampled_from([0.25, 0.5, 0.75])),
             "rate": draw(st.one_of(st.integers(1, 10), dyadic(0, 10).filter(lambda x: x > 0))), "actions": actions,
-            "ctor": draw(st.sampled_from(["direct", "template"])), "D0": draw(st.sampled_from([0, 0, 3, 9]))}
+            "ctor": draw(st.sampled_from(["direct", "template"])), "D0": draw(st.sampled_from([0, 0, 3, 9])),
+            "dead": dead and svc in ("linear", "relative")}
 
 
 class TooManySteps(Exception):
@@ -139,7 +142,7 @@ def run_case(spec) -> Result:
             now = trio.current_time()
             w = a["what"]
             if "mode" in w:
-                pool.utilisation, pool.allocation = (0.0, 0.0) if w["mode"] == "down" else (1.0, 1.0)
+                pool.utilisation, pool.allocation = {"down": (0.0, 0.0), "up": (1.0, 1.0), "dead": (0.5, 0.5)}[w["mode"]]
                 pool.supply = w["supply"]
             elif "write" in w:
                 service.demand = w["write"]
@@ -152,6 +155,13 @@ def run_case(spec) -> Result:
             env_log.append((now, w))
 
     raised = []
+    samples = []
+
+    async def sampler():
+        # the pool's demand as seen by an observer every quarter period (also while no step writes)
+        while True:
+            samples.append((trio.current_time(), pool.demand))
+            await trio.sleep(interval / 4)
 
     async def run_service():
         try:
@@ -166,6 +176,8 @@ def run_case(spec) -> Result:
             async with trio.open_nursery() as nursery:
                 nursery.start_soon(run_service)
                 nursery.start_soon(env)
+                if svc in ("linear", "switch"):
+                    nursery.start_soon(sampler)
                 await trio.sleep_forever()
 
     try:
@@ -188,16 +200,28 @@ def run_case(spec) -> Result:
 
     if svc in ("linear", "relative", "stepwise", "switch"):
         times = [t for t, _v in pool.timed]
-        if len(times) != m + 1:
-            res.fail("step-count", f"{svc}: {len(times)} steps in {duration!r}s with interval {interval!r}, expected {m + 1}; times {times[:8]}...")
-            return res
-        for k, t in enumerate(times):
-            if abs(t - k * interval) > tol:
-                res.fail("step-time", f"{svc}: step {k} at {t!r}, expected {k * interval!r}")
+        if spec.get("dead") and svc == "linear":
+            # steps in the dead band do not write: every write must still lie on the step grid, at most one per period
+            ks = []
+            for t in times:
+                if not on_grid(t, 0):
+                    res.fail("step-time", f"{svc}: demand written at {t!r}, off the step grid of {interval!r}")
+                    return res
+                ks.append(round(t / interval))
+            if len(set(ks)) != len(ks):
+                res.fail("step-count", f"{svc}: more than one step in a period: {times[:8]}")
                 return res
+        else:
+            if len(times) != m + 1:
+                res.fail("step-count", f"{svc}: {len(times)} steps in {duration!r}s with interval {interval!r}, expected {m + 1}; times {times[:8]}...")
+                return res
+            for k, t in enumerate(times):
+                if abs(t - k * interval) > tol:
+                    res.fail("step-time", f"{svc}: step {k} at {t!r}, expected {k * interval!r}")
+                    return res
         if svc in ("linear", "switch"):
             rate = spec["rate"] * (2 if svc == "switch" else 1)
-            pts = [(0.0, 10)] + pool.timed
+            pts = sorted([(0.0, 10)] + pool.timed + samples)
             for i in range(len(pts)):
                 for j in range(i + 1, len(pts)):
                     span = pts[j][0] - pts[i][0]
